@@ -1161,6 +1161,12 @@ def _gr_iter(fn, a, k, e):
     return fn.raising("(Except.toOption (Db.iter db k d))", "List:Rec:DbRec")
 
 
+def _gr_label_dump(fn, a, k, e, recv):
+    if a or k or recv[1] != "Rec:DbRec":
+        raise NotTranslatable("label.dump() on something that is not a record of the store")
+    return (f"(Option.elim {recv[0]}.label [] P0f.Gen.dbLabelDump)", "Str")
+
+
 TARGETS.append(dict(
     module="pyp0f.database.records_database", func="RecordsDatabase.get_random", file="GetRandom", lean="getRandom",
     import_="P0f.Glue.Records", open="P0f P0f.Py",
@@ -1169,10 +1175,11 @@ TARGETS.append(dict(
     env={"raw_label": ("raw_label", "Str"), "key": ("k", "Enum:RecKind"), "direction": ("d", "Opt:Enum:Dir")},
     raises={"DatabaseError": "(Except.error LoadErr.database)"}, lean_types={"Str": "List Char", "Rec:DbRec": "DbRec"},
     # `random.choice(records)`: the outcome the model keeps is the candidate list the draw is made from
-    random_sites=[("records", "List:Rec:DbRec")],
+    random_sites=[lambda fn, node, env: fn.expr(node.args[0], env) if len(node.args) == 1 and not node.keywords and ast.unparse(node.func) == "random.choice"
+                  else (_ for _ in ()).throw(NotTranslatable("random.choice call shape"))],
     calls={"self.iter_values": _gr_iter,
            # record.label.dump(): MTULabel -> its name, Label -> the printed Label.dump (a record without label cannot be filed by the parser)
-           "record.label.dump": bound([], ("(Option.elim record.label [] P0f.Gen.dbLabelDump)", "Str"))},
+           "*.label.dump": _gr_label_dump},
     alias="def getRandom (db : Db) (raw_label : List Char) (k : RecKind) (d : Option Dir) : Except LoadErr (List DbRec) := P0f.Db.candidates db raw_label k d\n",
 ))
 
